@@ -1328,8 +1328,12 @@ func (g *G) effectfulOperandStmt(sc *scope) []string {
 		g.declare(sc, &Var{Name: res, T: TBool})
 	} else {
 		out = append(out, fmt.Sprintf("%s := func(x uint64) uint64 {\n\t*%s = *%s + 1\n\treturn x + %d\n}", fn, cnt, cnt, g.pick("eoadd", 9)))
-		op := []string{"*", "&", "|", "-", "%"}[g.pick("eoaop", 5)]
+		op := []string{"*", "&", "|", "-", "%", "<<", ">>", "<<", ">>"}[g.pick("eoaop", 9)]
 		k := map[string]string{"*": "0", "&": "0", "|": "18446744073709551615", "-": "0", "%": "1"}[op]
+		if op == "<<" || op == ">>" {
+			// a constant count at or beyond the width: the result is 0, the call still runs (seeded change C01-16)
+			k = []string{"64", "65", "200", "63", "0"}[g.pick("eoshift", 5)]
+		}
 		call := fn + "(" + arg + ")"
 		if op == "*" || op == "&" || op == "|" {
 			if g.chance("eoleftconst", 40) {
